@@ -1,4 +1,4 @@
-\* thorough: every lifetime 1..20000 ms in 1 ms steps + hours
+\* thorough: every lifetime 2..20000 ms in 1 ms steps + whole minutes to 2 h (the model counts in ms: a 1 ms lifetime has its 0.75 ms delay below the resolution)
 CONSTANTS
   Lifetimes <- LifetimesT
   Dev_RenewFloorSeconds = FALSE
